@@ -372,6 +372,15 @@ def run_harness(unit, h, scratch):
                 if len(c) != 1:
                     raise Undecided('pre_unwind: loop regex %r matches %r' % (pu['loop'], c))
                 us.append('%s:%d' % (c[0], pu['bound']))
+            if h.get('pre_unwind_rest'):
+                # every loop that neither gets a loop contract nor an explicit bound is unwound too (with unwinding assertions):
+                # dfcc raises spurious 'loop counter not assignable' obligations for loops it skips while --apply-loop-contracts is on
+                keep = [re.compile(k) for k in h['pre_unwind_rest'].get('keep', [])]
+                done = set(u.rsplit(':', 1)[0] for u in us)
+                for n in names:
+                    if n in done or any(k.fullmatch(n) for k in keep):
+                        continue
+                    us.append('%s:%d' % (n, h['pre_unwind_rest']['bound']))
             ugb = os.path.join(hd, 'u.gb')
             rc, so, dt, to = run(['goto-instrument', '--unwindset', ','.join(us), '--unwinding-assertions', lgb, ugb], hd, 300)
             if rc != 0 or to or not os.path.exists(ugb):
@@ -466,6 +475,16 @@ def judge(res, h):
     real = [o for o in obs if o['class'] != 'reach']
     # a failed obligation with a trace is a real execution whatever happens to loop bounds / model capacities elsewhere;
     # failed unwinding assertions and MODEL bounds alone mean "could not decide" (they only guard the soundness of SUCCESS)
+    # documented tool artifacts: (name regex, description regex) pairs a harness may declare; matching failed obligations are
+    # set aside (listed in the evidence as 'set_aside') instead of being judged. Only used for dfcc's spurious
+    # "loop counter is not assignable" on loops it skips while --apply-loop-contracts is on (locals are always assignable).
+    aside = []
+    for ig in h.get('set_aside', []):
+        for o in real:
+            if o['status'] != 'SUCCESS' and re.fullmatch(ig['name'], o['name'] or '') and re.fullmatch(ig['desc'], o['desc'] or ''):
+                aside.append(o)
+    res['set_aside'] = [{'name': o['name'], 'desc': o['desc']} for o in aside]
+    real = [o for o in real if o not in aside]
     hard = [o for o in real if o['status'] != 'SUCCESS' and o['class'] not in ('unwind', 'model')]
     soft = [o for o in real if o['status'] != 'SUCCESS' and o['class'] in ('unwind', 'model')]
     if h.get('model_bound_ok'):
@@ -919,7 +938,7 @@ def write_evidence(prop, pres, infos, units, tier, seed, wall, nviol, kf):
               'reason': r.get('reason', ''), 'backend': r['backend'], 'solver_s': round(r['solver_s'], 2),
               'obligations': len([o for o in r['obligations'] if o['class'] != 'reach']),
               'discharged': len([o for o in r['obligations'] if o['class'] != 'reach' and o['status'] == 'SUCCESS']),
-              'functions': r.get('functions', []), 'checker_cmd': r['cmd']} for r in sorted(pres, key=lambda r: (r['unit'], r['harness']))]
+              'functions': r.get('functions', []), 'checker_cmd': r['cmd'], 'set_aside': r.get('set_aside', [])} for r in sorted(pres, key=lambda r: (r['unit'], r['harness']))]
     level = 'proof' if proved else 'other'
     cov = {
         'obligations': pt if proved else bt, 'discharged': pd if proved else bd,
